@@ -28,8 +28,8 @@ EXTENDS Fp12
 LOCAL INSTANCE SequencesExt
 
 (* ------------------------------------------------------------ parameters *)
-T == Num("600000000058f98a")                                \* the BN parameter t of GM/T 0044.5
-LoopA == BN!Add(BN!Mul(<<6>>, T), <<2>>)                     \* a = 6t + 2
+BnT == Num("600000000058f98a")                              \* the BN parameter t of GM/T 0044.5
+LoopA == BN!Add(BN!Mul(<<6>>, BnT), <<2>>)                     \* a = 6t + 2
 Pow(b, k) == IF k = 0 THEN <<1>> ELSE LET RECURSIVE F(_)
                                           F(i) == IF i = 1 THEN b ELSE BN!Mul(F(i - 1), b)
                                       IN F(k)
